@@ -2,7 +2,9 @@ import CoclsModel.MutexProofs
 /-!
 # C08 — coroutine mutex: FIFO hand-off, no lost request (property theorems)
 
-Model `Mutex.lean`, proofs `MutexProofs.lean`; quantifier as in `Props/C07.lean`: every configuration `c` with `c.WF`,
+Model `Mutex.lean`, proofs `MutexProofs.lean`; quantifier as in `Props/C07.lean`: every configuration `c` (all
+acquisition flavours, all ways of giving the ownership up — `release()`, awaited release, destruction, move into a
+temporary, assignment of an empty or of another mutex' ownership —, own ownership object or the shared slot),
 every state reachable from `init c` by any sequence of agent activities permitted by `canRun` (which covers every
 schedule of enabled OS threads: `trun_init_reachable`).  `pending s` is `queue ++ reverse (nodes of the stack)` without
 the found-null acquirer's own node; `s.stamp a` is the value of the clock at `a`'s successful publishing CAS.
@@ -12,9 +14,9 @@ variable {c : Cfg} {s : State}
 
 /-- **Arrival order.** The pending requests (`queue ++ reversed stack`, without the found-null acquirer's own node)
     are strictly sorted by arrival stamp, and every stamp is below the clock. -/
-theorem c08_pending_sorted (hwf : c.WF) (hs : Reachable c s) :
+theorem c08_pending_sorted (hs : Reachable c s) :
     (pending s).Pairwise (fun x y => s.stamp x < s.stamp y) ∧ ∀ x ∈ pending s, s.stamp x < s.clock := by
-  have h := inv_reachable hwf hs
+  have h := inv_reachable hs
   refine ⟨h.stampQ.sublist (pending_sublist s), ?_⟩
   intro x hx
   apply h.stampC
@@ -37,7 +39,7 @@ example : nodesOf sA.req = [] ∧ sA.queue = [1, 2] ∧ pending sA = [1, 2] := b
 theorem c08_publish_stamp (c : Cfg) (s : State) (t a : Nat) (prev : Seen) (hpc : s.pc a = Pc.sub prev)
     (hseen : seenOf s.req = prev) :
     (agentStep c s t a).1.stamp a = s.clock ∧ (agentStep c s t a).1.clock = s.clock + 1 ∧
-    (agentStep c s t a).1.req = Elem.node a :: s.req := by
+    (agentStep c s t a).1.req = Elem.node a (keyOf c s a) :: s.req := by
   unfold agentStep
   simp [hpc, hseen, setPc]
 
@@ -46,9 +48,9 @@ example : (agentStep cfgEx (arun cfgEx (init cfgEx) (runP.take 6)) 2 2).1.stamp 
 
 /-- **No lost request.** An agent waits for the lock (parked coroutine / blocking waiter whose flag is not set)
     iff it is a pending request, and then it has exactly one node in `queue ++ stack`. -/
-theorem c08_no_lost_request (hwf : c.WF) (hs : Reachable c s) (a : Nat) :
+theorem c08_no_lost_request (hs : Reachable c s) (a : Nat) :
     (Waiting s a ↔ a ∈ pending s) ∧ (Waiting s a → s.queue.count a + (nodesOf s.req).count a = 1) := by
-  have h := inv_reachable hwf hs
+  have h := inv_reachable hs
   have hc := h.cnt a
   constructor
   · constructor
@@ -89,16 +91,13 @@ example : Reachable cfgSy sS ∧ Waiting sS 1 ∧ pending sS = [1] ∧ canRun sS
     of waiting requests ending in the doorman while an owner past its acquisition exists; a chain ending in the
     owner's own node (whose `_next` is null) while the found-null acquirer has not yet run `build_queue`.  All nodes
     above the bottom marker are pending requests. -/
-theorem c08_stack_shape (hwf : c.WF) (hs : Reachable c s) :
+theorem c08_stack_shape (hs : Reachable c s) :
     ((∀ a, ¬ Owner s a) → s.req = []) ∧
-    (∀ o, Owner s o → s.pc o ≠ Pc.build → ∃ xs : List Nat, s.req = xs.map Elem.node ++ [Elem.door] ∧ ∀ x ∈ xs, Waiting s x) ∧
-    (∀ o, s.pc o = Pc.build → ∃ xs : List Nat, s.req = xs.map Elem.node ++ [Elem.node o] ∧ s.queue = [] ∧
-        ∀ x ∈ xs, Waiting s x) := by
-  have h := inv_reachable hwf hs
-  have hnodes : ∀ xs : List Nat, ∀ tl : List Elem, nodesOf (xs.map Elem.node ++ tl) = xs ++ nodesOf tl := by
-    intro xs tl; induction xs with
-    | nil => rfl
-    | cons x xs ih => simp [ih]
+    (∀ o, Owner s o → s.pc o ≠ Pc.build →
+        ∃ xs : List (Nat × Nat), s.req = nodesL xs ++ [Elem.door] ∧ ∀ x ∈ xs, Waiting s x.1) ∧
+    (∀ o, s.pc o = Pc.build → ∃ (xs : List (Nat × Nat)) (k : Nat), s.req = nodesL xs ++ [Elem.node o k] ∧ s.queue = [] ∧
+        ∀ x ∈ xs, Waiting s x.1) := by
+  have h := inv_reachable hs
   have hwait : ∀ x, x ∈ nodesOf s.req → s.pc x ≠ Pc.build → Waiting s x := by
     intro x hx hnb
     have hc := h.cnt x
@@ -113,34 +112,35 @@ theorem c08_stack_shape (hwf : c.WF) (hs : Reachable c s) :
     obtain ⟨xs, hxs⟩ := (doorEnd_iff _).1 (h.door o ho hnb)
     refine ⟨xs, hxs, ?_⟩
     intro x hx
-    refine hwait x (by rw [hxs, hnodes]; simp [hx]) ?_
+    refine hwait x.1 (by rw [hxs, nodesOf_nodesL]; simp; exact ⟨x.2, hx⟩) ?_
     intro hb
-    have := h.excl o x ho (by simp [Owner, hb, isOwner])
+    have := h.excl o x.1 ho (by simp [Owner, hb, isOwner])
     subst this; exact hnb hb
   · intro o ho
-    obtain ⟨xs, hxs⟩ := (nodeEnd_iff o _).1 (h.bldEnd o ho)
-    refine ⟨xs, hxs, (h.bld o ho).2, ?_⟩
+    obtain ⟨xs, k, hxs⟩ := (nodeEnd_iff o _).1 (h.bldEnd o ho)
+    refine ⟨xs, k, hxs, (h.bld o ho).2, ?_⟩
     intro x hx
-    have hxo : x ≠ o := by
-      rintro rfl
-      have hc := h.cnt x
-      rw [hxs, hnodes] at hc
-      have h1 : 0 < xs.count x := List.count_pos_iff.2 hx
+    have hmem : x.1 ∈ xs.map (·.1) := List.mem_map.2 ⟨x, hx, rfl⟩
+    have hxo : x.1 ≠ o := by
+      intro e
+      have hc := h.cnt o
+      rw [hxs, nodesOf_nodesL] at hc
+      have h1 : 0 < (xs.map (·.1)).count o := List.count_pos_iff.2 (e ▸ hmem)
       simp at hc
       split at hc <;> omega
-    refine hwait x (by rw [hxs, hnodes]; simp [hx]) ?_
+    refine hwait x.1 (by rw [hxs, nodesOf_nodesL]; simp; exact Or.inl ⟨x.2, hx⟩) ?_
     intro hb
-    have := h.excl o x (by simp [Owner, ho, isOwner]) (by simp [Owner, hb, isOwner])
+    have := h.excl o x.1 (by simp [Owner, ho, isOwner]) (by simp [Owner, hb, isOwner])
     exact hxo this.symm
 
-example : sP.req = [2, 1].map Elem.node ++ [Elem.door] ∧ sN.req = [2].map Elem.node ++ [Elem.node 1] ∧ sZ.req = [] := by decide
+example : sP.req = nodesL [(2, 0), (1, 0)] ++ [Elem.door] ∧ sN.req = nodesL [(2, 0)] ++ [Elem.node 1 0] ∧ sZ.req = [] := by decide
 
 /-- **Never locked without an owner.** -/
-theorem c08_not_stuck_locked (hwf : c.WF) (hs : Reachable c s) :
+theorem c08_not_stuck_locked (hs : Reachable c s) :
     (s.req ≠ [] → ∃ a, Owner s a ∧ canRun s a = true) ∧
     ((∀ a, ¬ Owner s a) → s.req = [] ∧ s.queue = [] ∧ pending s = []) ∧
     (s.req = [] → ∀ a, ¬ Owner s a) := by
-  have h := inv_reachable hwf hs
+  have h := inv_reachable hs
   refine ⟨?_, ?_, ?_⟩
   · intro hne
     apply Classical.byContradiction
@@ -160,9 +160,9 @@ example : sA.req = [Elem.door] ∧ Owner sA 0 ∧ canRun sA 0 = true := by decid
 example : sZ.req = [] ∧ (∀ a, a < 3 → ¬ Owner sZ a) := by decide
 
 /-- **Deadlock freedom (agent level).** If no agent's code can run, every agent has finished all its rounds. -/
-theorem c08_no_deadlock (hwf : c.WF) (hs : Reachable c s) (hstuck : ∀ a, canRun s a = false) :
+theorem c08_no_deadlock (hs : Reachable c s) (hstuck : ∀ a, canRun s a = false) :
     ∀ a, s.pc a = Pc.done ∧ (a < c.n → s.round a = (c.rounds a).length) := by
-  have h := inv_reachable hwf hs
+  have h := inv_reachable hs
   intro a
   have hd := inv_stuck_done h hstuck a
   exact ⟨hd, (h.rnd a).2.2 hd⟩
@@ -174,9 +174,9 @@ example : Reachable cfgEx sZ ∧ (∀ a, a < 3 → canRun sZ a = false ∧ sZ.pc
   ⟨reachable_of_run _ runZ (by decide), by decide⟩
 
 /-- the found-null acquirer is older than every pending request -/
-theorem c08_builder_first (hwf : c.WF) (hs : Reachable c s) (o : Nat) (ho : s.pc o = Pc.build) :
+theorem c08_builder_first (hs : Reachable c s) (o : Nat) (ho : s.pc o = Pc.build) :
     ∀ y ∈ pending s, s.stamp o < s.stamp y := by
-  have h := inv_reachable hwf hs
+  have h := inv_reachable hs
   intro y hy
   unfold pending at hy
   rw [(h.bld o ho).2, List.nil_append, List.mem_reverse, List.mem_filter] at hy
@@ -189,32 +189,32 @@ example : Reachable cfgEx sN ∧ sN.pc 1 = Pc.build ∧ Owner sN 1 ∧ nodesOf s
     sN.stamp 1 < sN.stamp 2 := ⟨reachable_of_run _ runN (by decide), by decide⟩
 example : (agentStep cfgEx sN 1 1).1.queue = [2] ∧ (agentStep cfgEx sN 1 1).1.req = [Elem.door] := by decide
 
-/-- **FIFO hand-over.** Whenever an activity of `x` hands the lock over (`grantee s x = some b`), `b` is the pending
-    request with the smallest arrival stamp; after the step `b` is the owner, `x` is not, `b` has one more grant and
-    the pending list lost exactly its head. -/
-theorem c08_fifo (hwf : c.WF) (hs : Reachable c s) (t x b : Nat) (hx : canRun s x = true) (hg : grantee s x = some b) :
+/-- **FIFO hand-over.** Whenever an activity of `x` hands the lock over (`grantee c s x = some b`: `x` gives its ownership
+    up through an armed ownership object — `release()`, awaited release, destruction, move into a temporary, assignment of
+    an empty or of the auxiliary mutex' ownership — or continues `unlock` after rebuilding the queue, and the queue is not
+    empty), `b` is the pending request with the smallest arrival stamp; after the step `b` is the owner, `x` is not, `b`
+    has one more grant and the pending list lost exactly its head. -/
+theorem c08_fifo (hs : Reachable c s) (t x b : Nat) (hx : canRun s x = true) (hg : grantee c s x = some b) :
     let s' := (agentStep c s t x).1
     (pending s).head? = some b ∧ (∀ y ∈ pending s, y ≠ b → s.stamp b < s.stamp y) ∧
     Owner s' b ∧ ¬ Owner s' x ∧ s'.grants b = s.grants b + 1 ∧ pending s' = (pending s).tail := by
   intro s'
-  have h := inv_reachable hwf hs
-  have h' : Inv c s' := inv_step hwf h t hx
-  obtain ⟨k, he, rest, hq⟩ := step_handOver c s t x b hg
-  have hsp := handOver_spec c { s with incs := k } t x b rest hq
-  have hs' : s' = (handOver c { s with incs := k } t x).1 := he
-  have hpcx : s.pc x = Pc.afterCs ∨ s.pc x = Pc.relHand := by
-    unfold grantee at hg; split at hg
-    · assumption
-    · cases hg
-  obtain ⟨hw, hnb, hc1, hc2⟩ := h.head_facts hq
-  have hbx : b ≠ x := by rintro rfl; rcases hpcx with e | e <;> simp [e, isWaiting] at hw
+  have h := inv_reachable hs
+  have h' : Inv c s' := inv_step h t hx
+  obtain ⟨k, hd, he, rest, hq⟩ := step_handOver c s t x b hg
+  have hsp := handOver_spec c { s with incs := k, held := hd } t x b rest hq
+  have hs' : s' = (handOver c { s with incs := k, held := hd } t x).1 := he
+  have hfle : flOf c { s with incs := k, held := hd } b = flOf c s b := rfl
+  obtain ⟨hownx, hw, hbx, _⟩ := h.grantee_facts hg
+  obtain ⟨_, hnb, hc1, hc2⟩ := h.head_facts hq
   have hpend : pending s = b :: (rest ++ (nodesOf s.req).reverse) := by
     unfold pending
     rw [hq, List.filter_eq_self.2 (fun y _ => by simpa using hnb y)]; rfl
-  have hpc' : s'.pc = (if c.kind b = AKind.coro then upd (upd s.pc b Pc.crit) x Pc.relDone else upd s.pc x Pc.relDone) := by
-    rw [hs', hsp.2.2.2.2.2.1]
-  have hfl' : s'.flag = (if c.kind b = AKind.sync then upd s.flag b true else s.flag) := by
-    rw [hs', hsp.2.2.2.2.2.2]
+  have hpc' : s'.pc = (if flOf c s b = some Flavour.co then upd (upd s.pc b Pc.crit) x Pc.relDone
+                       else upd s.pc x Pc.relDone) := by
+    rw [hs', hsp.2.2.2.2.2.1, hfle]
+  have hfl' : s'.flag = (if flOf c s b = some Flavour.co then s.flag else upd s.flag b true) := by
+    rw [hs', hsp.2.2.2.2.2.2.1, hfle]
   have hnb' : ∀ y, s'.pc y ≠ Pc.build := by
     intro y
     rw [hpc']
@@ -230,18 +230,12 @@ theorem c08_fifo (hwf : c.WF) (hs : Reachable c s) (t x b : Nat) (hx : canRun s 
       exact hQ.1 y e
   · unfold Owner
     rw [hpc', hfl']
-    cases hk : c.kind b
-    · -- sync: flag set
-      have hkw : s.pc b = Pc.waitFlag ∨ s.pc b = Pc.blocked := by
-        have hkp := h.kindP b
-        generalize s.pc b = pb at *
-        cases pb <;> simp_all [isWaiting]
-      rcases hkw with e | e <;> simp [hbx, e, isOwner]
-    · simp [hbx, isOwner]
+    by_cases hk : flOf c s b = some Flavour.co
+    · simp [hk, hbx, isOwner]
+    · have hkw := ((h.head_wait hq).2 hk).1
+      rcases hkw with e | e <;> simp [hk, hbx, e, isOwner]
   · unfold Owner
     rw [hpc']
-    have hfx : s'.flag x = s.flag x := by
-      rw [hfl']; split <;> simp [Ne.symm hbx]
     split <;> simp [isOwner]
   · rw [hs', hsp.2.2.1]; simp
   · unfold pending
@@ -249,17 +243,21 @@ theorem c08_fifo (hwf : c.WF) (hs : Reachable c s) (t x b : Nat) (hx : canRun s 
       List.filter_eq_self.2 (fun y _ => by simpa using hnb y)]
     rfl
 
+/- every way of giving the ownership up hands over to the head of the queue: scenario `runO3` — 1 assigned an empty
+   ownership over the shared slot (→ 2), 2 moved its ownership into a temporary (→ 3); in `sO1` owner 0 calls `release()` -/
+example : sO3.grantLog = [0, 1, 2, 3] ∧ sO1.stamp 1 < sO1.stamp 2 ∧ sO1.stamp 2 < sO1.stamp 3 := by decide
+
 /- the hand-over `sA → sB`: 1 (stamp 0) before 2 (stamp 1) -/
-example : grantee sA 0 = some 1 ∧ pending sA = [1, 2] ∧ sA.stamp 1 < sA.stamp 2 ∧ Owner sB 1 ∧ pending sB = [2] := by decide
+example : grantee cfgEx sA 0 = some 1 ∧ pending sA = [1, 2] ∧ sA.stamp 1 < sA.stamp 2 ∧ Owner sB 1 ∧ pending sB = [2] := by decide
 /- the whole scenario grants in arrival order -/
 example : sZ.grantLog = [0, 1, 2, 2] := by decide
 
 /-- **No barging.** An agent acquires the mutex by a CAS of its own (`ready()` or the publishing CAS on `null`)
     only when the mutex is free: no owner, no pending request. -/
-theorem c08_no_barging (hwf : c.WF) (hs : Reachable c s) (t x : Nat)
+theorem c08_no_barging (hs : Reachable c s) (t x : Nat)
     (hacq : s.pc x = Pc.top ∨ ∃ p, s.pc x = Pc.sub p) (hown : Owner (agentStep c s t x).1 x) :
     s.req = [] ∧ s.queue = [] ∧ pending s = [] ∧ ∀ y, ¬ Owner s y := by
-  have h := inv_reachable hwf hs
+  have h := inv_reachable hs
   have hreq : s.req = [] := by
     rcases hacq with hpc | ⟨p, hpc⟩
     · unfold agentStep at hown
@@ -280,13 +278,15 @@ theorem c08_no_barging (hwf : c.WF) (hs : Reachable c s) (t x : Nat)
         · subst hp; exact seenOf_eq_null.1 hseen
         · exfalso
           simp only [hp, if_false] at hown
-          cases hk : c.kind x
-          · have := h.subF x p hpc hk
-            simp [Owner, setPc, hk, isOwner, this] at hown
+          by_cases hk : flOf c s x = some Flavour.co
           · simp [Owner, setPc, hk, isOwner] at hown
+          · have := h.subF x p hpc hk
+            split at hown
+            · rename_i hk'; exact absurd hk' hk
+            · simp [Owner, setPc, isOwner, this] at hown
       · simp [Owner, setPc, isOwner] at hown
-  have hno := (c08_not_stuck_locked hwf hs).2.2 hreq
-  have := (c08_not_stuck_locked hwf hs).2.1 hno
+  have hno := (c08_not_stuck_locked hs).2.2 hreq
+  have := (c08_not_stuck_locked hs).2.1 hno
   exact ⟨this.1, this.2.1, this.2.2, hno⟩
 
 /- 1's publishing CAS on `null` in scenario `runN` (5th activity) happens when nothing is pending -/
@@ -295,7 +295,7 @@ example : (arun cfgEx (init cfgEx) (runN.take 4)).req = [] ∧ pending (arun cfg
 
 /-- **`try_lock`** is one synchronising operation, succeeds iff the mutex is free (iff nobody owns it) and never
     parks or blocks: afterwards the agent is at `crit` or at `tryFail`, from where it goes straight on to its next round. -/
-theorem c08_try_lock (hwf : c.WF) (hs : Reachable c s) (t a : Nat) (r : Round) (hpc : s.pc a = Pc.top)
+theorem c08_try_lock (hs : Reachable c s) (t a : Nat) (r : Round) (hpc : s.pc a = Pc.top)
     (hr : curRound c s a = some r) (hfl : r.fl = Flavour.try_) :
     let res := agentStep c s t a
     res.2.2 = Outcome.op ∧
@@ -310,12 +310,12 @@ theorem c08_try_lock (hwf : c.WF) (hs : Reachable c s) (t a : Nat) (r : Round) (
   cases hq : s.req with
   | nil =>
     simp only [hq] at hres
-    have hno := (c08_not_stuck_locked hwf hs).2.2 hq
+    have hno := (c08_not_stuck_locked hs).2.2 hq
     refine ⟨by rw [hres], Or.inl ⟨by rw [hres]; simp [setPc], by rw [hres]; simp [Owner, setPc, isOwner], hno⟩, ?_⟩
     intro h; rw [hres] at h; simp [setPc] at h
   | cons e es =>
     simp only [hq] at hres
-    have hex := (c08_not_stuck_locked hwf hs).1 (by rw [hq]; simp)
+    have hex := (c08_not_stuck_locked hs).1 (by rw [hq]; simp)
     obtain ⟨y, hy, _⟩ := hex
     refine ⟨by rw [hres], Or.inr ⟨by rw [hres]; simp [setPc], y, hy⟩, ?_⟩
     intro h
@@ -332,11 +332,11 @@ example : (arun cfgEx (init cfgEx) (runZ.take 16)).pc 2 = Pc.top ∧ (arun cfgEx
 
 /-- **Relockable.** When every agent has finished, the mutex is free again (`_requests = nullptr`, `_queue` empty);
     and whenever nobody owns it, a new `ready()` CAS succeeds. -/
-theorem c08_relockable (hwf : c.WF) (hs : Reachable c s) :
+theorem c08_relockable (hs : Reachable c s) :
     ((∀ a, s.pc a = Pc.done) → s.req = [] ∧ s.queue = []) ∧
     ((∀ a, ¬ Owner s a) → ∀ t a r, s.pc a = Pc.top → curRound c s a = some r →
         (agentStep c s t a).1.pc a = Pc.crit ∧ Owner (agentStep c s t a).1 a) := by
-  have hnsl := c08_not_stuck_locked hwf hs
+  have hnsl := c08_not_stuck_locked hs
   constructor
   · intro hd
     have := hnsl.2.1 (fun a ha => by simp [Owner, hd a, isOwner] at ha)
@@ -353,23 +353,23 @@ example : (∀ a, a < 3 → sZ.pc a = Pc.done) ∧ sZ.req = [] ∧ sZ.queue = []
 
 /-- **C07/C08 hold for every schedule of OS threads**: the state after any schedule of enabled threads
     (`threadStep`, any fuel) is `Reachable`, so every theorem above and in `Props/C07.lean` applies to it. -/
-theorem c08_thread_level (hwf : c.WF) (fuel : Nat) (ts : List Nat) (hg : TGuarded c fuel (init c) ts) :
+theorem c08_thread_level (hwf : c.WFT) (fuel : Nat) (ts : List Nat) (hg : TGuarded c fuel (init c) ts) :
     Reachable c (trun c fuel (init c) ts) :=
   trun_init_reachable hwf fuel ts hg
 
 /-- **Deadlock freedom (OS-thread level, what the harness' deadlock detector observes).** After any schedule of
     enabled threads: if no thread is enabled any more, every agent has finished all its rounds, every thread has
     finished and the mutex is free — the executor glue never loses a runnable coroutine (`LInv`). -/
-theorem c08_no_deadlock_threads (hwf : c.WF) (fuel : Nat) (ts : List Nat) (hg : TGuarded c fuel (init c) ts)
+theorem c08_no_deadlock_threads (hwf : c.WFT) (fuel : Nat) (ts : List Nat) (hg : TGuarded c fuel (init c) ts)
     (hstuck : ∀ t, enabled (trun c fuel (init c) ts) t = false) :
     (∀ a, (trun c fuel (init c) ts).pc a = Pc.done) ∧
     (∀ a, a < c.n → (trun c fuel (init c) ts).round a = (c.rounds a).length) ∧
     (∀ t, (trun c fuel (init c) ts).tmain t = TMain.finished) ∧
     (trun c fuel (init c) ts).req = [] ∧ (trun c fuel (init c) ts).queue = [] := by
-  obtain ⟨hs, _, hL⟩ := treachable_reachable hwf fuel ts _ (reachable_init c) (tinv_init c) (linv_init c) hg
-  have h := inv_reachable hwf hs
-  obtain ⟨h1, h2⟩ := threads_stuck_done h hL hstuck
-  have := (c08_relockable hwf hs).1 h1
+  obtain ⟨hs, hT, hL⟩ := treachable_reachable hwf fuel ts _ (reachable_init c) (tinv_init c) (linv_init c) hg
+  have h := inv_reachable hs
+  obtain ⟨h1, h2⟩ := threads_stuck_done hwf h hT hL hstuck
+  have := (c08_relockable hs).1 h1
   exact ⟨h1, fun a ha => (h.rnd a).2.2 (h1 a) ha, h2, this.1, this.2⟩
 
 example : TGuarded cfgEx 100 (init cfgEx) schedZ ∧ (∀ t, t < 3 → enabled (trun cfgEx 100 (init cfgEx) schedZ) t = false) ∧
